@@ -265,6 +265,7 @@ class DirectedMultigraph : private LabeledDirectedGraph<EdgeMultiplicity> {
         auto j = successors.begin();
         while (j != successors.end()) {
             totalEdgeNumber -= getEdgeLabel(vertex, *j, false);
+            edgeLabels.erase({vertex, *j});
             successors.erase(j++);
             edgeNumber--;
         }
